@@ -11,24 +11,24 @@ RULE = ("E-INPUT: (A) date ladder: start dates = 28th..31st and 1st of every mon
         "(0, 1 ms .. 150 y) x value type {datetime, date, datetime with microseconds} x n in {1,2,3} (sorted and unsorted), with options omitted / {} / "
         "{'direction': d} in rotation, both back-ends; (B) option sweep: 12 dataset shapes (single datum, equal times, ints, "
         "floats, dates, datetimes, bare times, unsorted) x option form {omitted, empty, partial, full} x 4 directions x 3 "
-        "algorithms x 3 bounds x tick display x 2 back-ends; (C, thorough) 200/500/1000 labels with conflict clusters of "
+        "algorithms x 5 bounds (incl. a zero-width band) x tick display x 2 back-ends, plus export to a file (bare name and path) compared with the returned text; (C, thorough) 200/500/1000 labels with conflict clusters of "
         "1..200 labels, and one probe at 250. Oracle: export returns within the horizon without raising, the document parses, "
         "one dot/link/box per datum, a degenerate domain puts every dot at axis position 0. Non-trivial: every case (each is a "
         "distinct documented input shape); separately counted: degenerate domains, month-end spans, sub-second spans.")
 ASSUMPTIONS = ["numeric times are accompanied by an explicit LinearScale() (documented usage; the library default is a time scale)",
                "explicit widths only (no LaTeX in the image)", "clusters above 200 labels are outside the claim (known finding)"]
-REQUIRED_COUNTERS = ("exports", "degenerate", "options_none", "subsecond_spans", "month_end_starts")
+REQUIRED_COUNTERS = ("exports", "degenerate", "options_none", "subsecond_spans", "month_end_starts", "file_exports")
 
 D = 86400000
 SPANS = [0, 1, 7, 9, 10, 1000, 90000, 3600000, 11 * 3600000, D, 3 * D, 10 * D, 31 * D, 45 * D, 200 * D, 366 * D, 1826 * D, 14610 * D, 54787 * D]
 ALGOS = ("overlap", "simple", "none")
-BOUNDS = ({}, {"minPos": None}, {"maxPos": 90})
+BOUNDS = ({}, {"minPos": None}, {"maxPos": 90}, {"maxPos": 0}, {"minPos": 120, "maxPos": 120})
 
 
 def bounds(tier, seed):
     return {"ladder": {"starts": len(starts(seed)), "spans_ms": SPANS, "types": ["datetime", "date", "datetime with microseconds"], "n": [1, 2, 3]},
             "sweep": {"shapes": len(shapes()), "forms": ["omitted", "empty", "partial", "full"], "directions": 4, "algorithms": 3,
-                      "bounds": 3, "ticks": 2},
+                      "bounds": 5, "ticks": 2},
             "large": "n in {200,500,1000} x cluster sizes {1,2,5,10,50,100,150,200}, probe 250" if tier == "thorough" else "thorough only"}
 
 
@@ -155,6 +155,36 @@ def judge(case, acc=None):
     return None
 
 
+def judge_file(case):
+    """export(filename): the file is written (also for a bare file name) and holds the returned document."""
+    import os
+    import tempfile
+    data = copy.deepcopy(case["data"])
+    backend = case["backend"]
+    form, direction, algo, bi, ticks = case["opt"]
+    opts = options_for(case["kind"], form, direction, algo, bi, ticks)
+    old = os.getcwd()
+    with tempfile.TemporaryDirectory(prefix="verif_c11_") as tmp:
+        try:
+            os.chdir(tmp)
+            name = {"bare": "timeline.out", "rel": os.path.join(".", "timeline.out"), "abs": os.path.join(tmp, "timeline.out")}[case["file"]]
+            with horizon(10.0):
+                tl = draw.make_timeline(backend, data, opts)
+                ret = tl.export(name) if backend == "svg" else tl.export(name, build_pdf=False)
+            with open(os.path.join(tmp, "timeline.out"), "rb") as f:
+                body = f.read()
+        except Hang:
+            return "HANG", "export(%r) did not return" % case["file"]
+        except Exception as e:
+            return "EXC:file:" + type(e).__name__, "%s export to a %s file name raised %r" % (backend, case["file"], e)
+        finally:
+            os.chdir(old)
+    want = ret if isinstance(ret, bytes) else ret.encode("utf-8")
+    if body != want:
+        return "C11:file-content", "%s export(%s name): the file does not hold the returned document" % (backend, case["file"])
+    return None
+
+
 def big_data(n, c):
     """n labels in conflict clusters of c labels each: the labels of a cluster share one instant, clusters are far
     enough apart (in pixels: the axis is as long as the data, scale factor 1) not to touch each other."""
@@ -186,6 +216,7 @@ def plan(tier, seed):
         for nn in (200, 500, 1000):
             for c in (1, 2, 5, 10, 50, 100, 150, 200):
                 shards.append({"kind": "big", "n": nn, "c": c})
+    shards.append({"kind": "files"})
     shards.append({"kind": "big", "n": 300, "c": 250})  # the known finding probe
     return shards
 
@@ -242,6 +273,19 @@ def run_shard(shard):
                                     acc.trans += 1
                                     if bad:
                                         acc.violation(case, bad[0], bad[1], order=(1, shi, idx))
+    elif shard["kind"] == "files":
+        for shi, (kind, data) in enumerate(shapes()):
+            for backend in ("svg", "tex"):
+                for fm in ("bare", "rel", "abs"):
+                    case = {"kind": kind, "data": data, "backend": backend, "opt": ["full", "up", "overlap", 0, True], "file": fm}
+                    bad = judge_file(case)
+                    acc.evals += 1
+                    acc.states += 1
+                    acc.trans += 1
+                    acc.nontriv += 1
+                    acc.counters["file_exports"] += 1
+                    if bad:
+                        acc.violation(case, bad[0], bad[1], order=(1, 900 + shi, 0))
     else:
         n, c = shard["n"], shard["c"]
         for backend in ("svg", "tex"):
@@ -273,6 +317,8 @@ def replay(case):
         if bad and case["c"] > 200 and bad[0] == "EXC:RecursionError":
             return "cluster>200:RecursionError", bad[1]
         return bad
+    if case.get("file"):
+        return judge_file(case)
     return judge(case)
 
 
